@@ -178,7 +178,7 @@ def run(res, ctx):
         tried = 0
         while vis["cases"] < nvis and tried < nvis * 20:
             tried += 1
-            c = gen.gen_case(rng, p_invalid=0.5)
+            c = gen.gen_case(rng, p_invalid=rng.choice([0.5, 0.15]))
             r = corecheck.run_cases(ctx, [c], render=True)[0]
             i = r["impl"]
             if i["status"] != "ok":
@@ -216,6 +216,16 @@ def run(res, ctx):
                 if msg not in errs:
                     res.violation("failing-input", "render model does not carry the error of %s" % sname,
                                   {"input": r["hc"], "mode": "render-model", "message": msg})
+            # the security is left out of every total: its own table shows a zero total and no years
+            for s, so in bad:
+                sname = corecheck.sec_name(r, s)
+                foot = rm.get("secs", {}).get(sname, {}).get("footer")
+                if foot and len(foot) > 9:
+                    labels = foot[8].split("\n")
+                    vals = foot[9].split("\n")
+                    if labels != ["Total"] or vals[0].replace("$", "").replace("-", "").strip("0.") != "":
+                        res.violation("failing-input", "the rejected security %s still shows capital-gain totals %s / %s" % (sname, labels, vals),
+                                      {"input": r["hc"], "security": sname})
             # the security is left out of every total
             agg = rm.get("agg", {}).get("rows", [])
             good_total = ZERO
